@@ -27,7 +27,8 @@ EXTENDS Naturals, Integers, Sequences, FiniteSets, TLC, Json, IOUtils
 
 N == INSTANCE Names WITH MaxDecl <- 0, MaxDeclM <- 0, MaxMent <- 0, MaxSl <- 1, MaxDepth <- 3,
                          MaxFields <- 4, DimCodes <- {0}, SigTypes <- {"B1"}, SigKindsE <- {"Wire"},
-                         MpKindsE <- {"CallerPort"}, ChainOnly <- FALSE, decl <- <<>>, ment <- {}
+                         MpKindsE <- {"CallerPort"}, ChainOnly <- FALSE, RagSize <- 0, RagDepth <- 0,
+                         RagEmpty <- 0, decl <- <<>>, ment <- {}
    \* only the pure operators of Names are used here
 
 Input  == JsonDeserialize(IOEnv.VERIF_INPUT)
